@@ -1758,6 +1758,31 @@ func (m *mach) eval(fr *mframe, v ssa.Value) mv {
 			var val mv
 			found := false
 			if mm, ok := mp.(*mMap); ok && mm != nil {
+				// a key that is not a constant selects among the entries like a chain of comparisons would:
+				// each comparison is a branch on a non-constant condition (explored in both directions, or outside the model)
+				if ksym, isSym := k.(*mSym); isSym && len(mm.keys) > 0 {
+					if _, same := mm.v["sym:"+ksym.name]; !same {
+						if m.decide == nil {
+							m.abort("a map lookup by the non-constant key %s at %s is outside the finite model", mRender(k), m.c.Pos(t.Pos()))
+						}
+						if b, isBasic := t.Index.Type().Underlying().(*types.Basic); isBasic && b.Info()&types.IsBoolean != 0 {
+							d, _ := m.decide(m, k, t)
+							k = d
+						} else {
+							for _, kstr := range mm.keys {
+								kv := mm.k[kstr]
+								if _, symKey := kv.(*mSym); symKey {
+									continue
+								}
+								cond := &mSym{name: symName("==", k, kv), typ: types.Typ[types.Bool]}
+								if d, _ := m.decide(m, cond, t); d {
+									k = kv
+									break
+								}
+							}
+						}
+					}
+				}
 				ks, okk := mapKey(k)
 				if !okk {
 					m.abort("map key outside the model at %s", m.c.Pos(t.Pos()))
